@@ -1,15 +1,15 @@
 SPECIFICATION Spec
 CONSTANTS
   Sessions = {"S1", "S2"}
-  Builders = {"B1", "B2"}
-  Fields = {"redir", "compress"}
+  Builders = {"B1"}
+  Fields = {"redir"}
   Vals = {0, 1}
-  HNames = {"x-a", "accept-encoding"}
+  HNames = {"x-a"}
   HVals = {"1"}
-  MaxCells = 6
+  MaxCells = 5
   MaxSteps = 6
-  AllowBack = FALSE
-  SkipDefault = FALSE
+  AllowBack = TRUE
+  SkipDefault = TRUE
   CopyOnWrite = TRUE
 PROPERTY IsolationB
 PROPERTY StepRefines
